@@ -146,7 +146,7 @@ type caseRec struct {
 
 func TestCodec(t *testing.T) {
 	res := common.NewResult("codec")
-	res.Rule = "round trip: maps generated from a pool of edge-case strings/sizes, written through one store handle in sequences of 1-6 rewrites; damaged: every truncation and 6 single-byte corruptions at every position of valid encodings, plus random byte strings. distinct = distinct file images; non-trivial = image not empty and (for damaged inputs) different from every valid encoding generated"
+	res.Rule = "round trip: maps generated from a pool of edge-case strings/sizes (plus tables with one string of 16383 / 16385 / 20000 / 70000 bytes as name, key or session id), written through one store handle in sequences of 1-6 rewrites; damaged: every truncation and 6 single-byte corruptions at every position of valid encodings, plus random byte strings. distinct = distinct file images; non-trivial = image not empty and (for damaged inputs) different from every valid encoding generated"
 	defer func() {
 		if err := res.Write(); err != nil {
 			t.Fatal(err)
@@ -277,6 +277,24 @@ func TestCodec(t *testing.T) {
 		res.Count("large-table")
 		writeSeq([]smap{big})
 	}
+	// long strings (the server accepts any non-empty name, gRPC messages go up to 4 MiB): lengths around
+	// and beyond the two-byte / three-byte length prefixes, as lock name, as key and as session id
+	for _, n := range []int{16383, 16385, 20000, 70000} {
+		long := strings.Repeat("n", n)
+		for pos := 0; pos < 3; pos++ {
+			m := smap{"s": {cl.New("a", "k", 1)}}
+			switch pos {
+			case 0:
+				m["s"] = []cl.Lock{cl.New(long, "k", 1), cl.New("b", "k2", 2)}
+			case 1:
+				m["s"] = []cl.Lock{cl.New("a", long, 1)}
+			case 2:
+				m = smap{long: {cl.New("a", "k", 1)}, "t": {}}
+			}
+			res.Count("long-string")
+			writeSeq([]smap{m})
+		}
+	}
 	// checkpoint: what the write/read-back monitor found survives a decoder that ends the process
 	// (out of memory is not recoverable) in the parts below
 	res.Note("checkpoint written after the write/read-back part")
@@ -328,7 +346,7 @@ func TestCodec(t *testing.T) {
 		// large files: the tail (every cut of 1-24 bytes, corruptions of the last 12 bytes) and a few
 		// random positions; every position would be too many
 		b := cases[i].bytes
-		if len(b) < 500 || cases[i].kind != "valid" {
+		if len(b) < 500 || cases[i].kind != "valid" || len(b) > 40000 && i%3 != 0 {
 			continue
 		}
 		res.Count("large-file-damaged")
